@@ -312,3 +312,53 @@ def check_singular_measure(prog, report):
                  'coordinate 0 on piece 1 and coordinate 1 on piece 2',
                  construct='seminorm_h_1_2_pw: structure')
     report.floor('R-singular-measure', 9)
+
+
+def check_order_defaults(prog, report):
+    """Slobodeckij.__init__: the H^1/4 rule is built from N_poly_1_4, the
+    H^1/2 rules from N_poly_1_2, which defaults to N_poly_1_4 only when it
+    is None."""
+    from .absint import Walker, State
+    ci = prog.cls(N, 'Slobodeckij')
+    fi = ci.methods['__init__']
+    if fi.params[1:3] != ['N_poly_1_4', 'N_poly_1_2']:
+        raise AnalysisError('%s: parameters renamed' % fi.where())
+
+    class W(Walker):
+        split_paths = True
+
+        def __init__(s_):
+            super().__init__()
+            s_.calls = []
+
+        def on_stmt(s_, st, state):
+            if isinstance(st, ast.Assign) and isinstance(
+                    st.value, ast.Call) and text(st.value.func).endswith(
+                        '_quadrature_scheme'):
+                s_.calls.append((text(st.targets[0]),
+                                 text(state.sub(st.value.args[0])),
+                                 state.copy(), st))
+
+    w = W()
+    w.walk_function(fi.node)
+    want = {'self.gauss_sqrtinv': 'N_poly_1_4', 'self.gauss_leg':
+            'N_poly_1_2', 'self.gauss_x': 'N_poly_1_2'}
+    seen = set()
+    for tgt, arg, state, st in w.calls:
+        if tgt not in want:
+            continue
+        seen.add(tgt)
+        none_case = state.entails_bool('N_poly_1_2 is None')
+        exp = want[tgt]
+        if exp == 'N_poly_1_2' and none_case:
+            exp = 'N_poly_1_4'
+        report.check(
+            arg == exp, 'R-orders', 'Slobodeckij %s order (%s)' %
+            (tgt, 'default' if none_case else 'explicit'), fi.where(st),
+            'the rule is built with the order requested for it: %s (an '
+            'explicitly given H^1/2 order is used as given; only None '
+            'falls back to the H^1/4 order); found `%s`' % (exp, arg),
+            construct='Slobodeckij.__init__: order of %s' % tgt)
+    if seen != set(want):
+        raise AnalysisError('%s: rule constructions not found (%s)' %
+                            (fi.where(), sorted(seen)))
